@@ -11,7 +11,8 @@ LEVEL = 'exploration'
 RULE = ('all formulas of the fragment the explainer supports (no since/until; <=2 operators, 3-chains) over bare-variable and variable-vs-constant atoms '
         'x all traces of length 1..4 over {-1,1}; for every trace that violates the formula at time 0 (real evaluate() + explain()), ALL re-assignments '
         'over {-1,1} of the (variable, sample) positions that are NOT reported must still violate the formula at time 0 (reference rho < 0); for a '
-        'satisfied trace nothing may be reported for the input variables; period layer: bounded operators under sampling periods and default units in which one bound unit is not one sample '
+        'satisfied trace nothing may be reported for the input variables; one specification object explains all traces of a formula in turn, and after every second explanation '
+        'the harness overwrites the interval lists it was handed (as a caller converting them in place would); period layer: bounded operators under sampling periods and default units in which one bound unit is not one sample '
         '(500 ms / s, 1 ms / ms with bounds in s, ...), same oracle with the bounds converted to samples; non-trivial = violated case with at least one free position')
 ASSUMPTIONS = ['sample values restricted to {-1,1} (so every robustness is non-zero); reference rho from vf/refsem.py decides violation of the re-assigned traces']
 
@@ -186,6 +187,7 @@ def check_case(case, spec=None):
         for pre in case.get('pre', []):
             impl.outcome(impl.dt_evaluate, spec, pre)
             impl.outcome(spec.explain)
+            scribble(spec.explainer.explanations)
     k, out = impl.outcome(impl.dt_evaluate, spec, w)
     if k != 'ok':
         return 'evaluate() raised %s' % (out,), None
@@ -200,14 +202,34 @@ def check_case(case, spec=None):
             return 'the specification is satisfied at time 0 (rho %r) but %r is reported' % (r0, {v: ex.get(v) for v in vs}), None
         return None, 'sat'
     free = [(v, i) for v in vs for i in range(n) if (v, i) not in fixed]
+    shown = {v: copy_intervals(ex.get(v)) for v in vs}
+    if case.get('scribble'):
+        scribble(ex)
     for alt in itertools.product(F.VBOOL, repeat=len(free)):
         w2 = {v: list(w[v]) for v in vs}
         for (v, i), val in zip(free, alt):
             w2[v][i] = val
         if refsem.ev(f, w2, n)[0] >= 0:
             return ('reported %r is not a sufficient cause: the trace %r coincides with the original on all reported positions but satisfies the specification at time 0'
-                    % ({v: ex.get(v) for v in vs}, w2)), None
+                    % (shown, w2)), None
     return None, ('viol', len(free))
+
+
+def copy_intervals(x):
+    return [list(i) for i in x] if isinstance(x, list) else x
+
+
+def scribble(ex):
+    """the explanations dictionary is what explain() hands to the caller; a caller that rewrites the interval lists it was given (say, into
+    time-stamps) must not influence the next explanation"""
+    for k in list(ex.keys()):
+        v = ex[k]
+        if isinstance(v, list):
+            for iv in v:
+                if isinstance(iv, list):
+                    for j in range(len(iv)):
+                        iv[j] = 77
+            v.append([77, 78])
 
 
 def run_shard(shard, tier, res):
@@ -234,7 +256,7 @@ def run_shard(shard, tier, res):
         prev = None
         for ti, t in enumerate(F.traces(n, F.VBOOL, len(vs))):
             w = F.trace_dict(t, vs)
-            case = {'formula': fj, 'spec': text, 'vars': vs, 'trace': w}
+            case = {'formula': fj, 'spec': text, 'vars': vs, 'trace': w, 'scribble': ti % 2 == 1}
             res.evaluations += 1
             msg, info = check_case(case, spec)
             if msg:
